@@ -153,6 +153,17 @@ func (cs *c06Configs) get(k int) (jsonpath.Config, bool) {
 	return cs[k], k != 0
 }
 
+// spread returns the Config of kind k as a sub-slice of the scenario's one Config list (what a
+// program does that keeps its Configs in a slice): list[k-1:k], and for "no Config" the empty
+// prefix list[:0] - which still has the whole list behind it as spare capacity.
+func (cs *c06Configs) spread(list []jsonpath.Config, k int) []jsonpath.Config {
+	k %= 4
+	if k == 0 {
+		return list[:0]
+	}
+	return list[k-1 : k]
+}
+
 func c06Accessor(k int) bool { return k%4 >= 2 }
 
 func c06Outcome(got []interface{}, err error) string {
@@ -180,6 +191,7 @@ func checkC06(c *Case, st *Stats) string {
 		snaps[i] = takeSnapshot(docs[i])
 	}
 	cfgs := newC06Configs()
+	cfgList := []jsonpath.Config{cfgs[1], cfgs[2], cfgs[3]}
 	// shared pre-parsed functions (funcs need a config; paths without functions parse under any)
 	type sharedFn struct {
 		path, cfg int
@@ -300,7 +312,9 @@ func checkC06(c *Case, st *Stats) string {
 		case 0:
 			var f func(interface{}) ([]interface{}, error)
 			var err error
-			if cfg, ok := cfgs.get(op.cfg); ok {
+			if (op.doc+op.path)%3 == 0 {
+				f, err = jsonpath.Parse(op.text, cfgs.spread(cfgList, op.cfg)...) // a sub-slice of the shared Config list
+			} else if cfg, ok := cfgs.get(op.cfg); ok {
 				f, err = jsonpath.Parse(op.text, cfg)
 			} else {
 				f, err = jsonpath.Parse(op.text) // no Config argument at all
@@ -309,6 +323,9 @@ func checkC06(c *Case, st *Stats) string {
 				return nil, err
 			}
 			return f(docs[op.doc])
+		}
+		if (op.doc+op.path)%3 == 0 {
+			return jsonpath.Retrieve(op.text, docs[op.doc], cfgs.spread(cfgList, op.cfg)...)
 		}
 		if cfg, ok := cfgs.get(op.cfg); ok {
 			return jsonpath.Retrieve(op.text, docs[op.doc], cfg)
